@@ -69,6 +69,34 @@ def runFrom (s : ML) (tr : List Ev) : List (Nat × Bool) → ML × List Ev
 def run (n : Nat) (fwd : Bool) (cs : List (Nat × Bool)) : List Ev :=
   (runFrom (filter n fwd).1 (filter n fwd).2 cs).2
 
+/-! ### a module list that grows while a phase runs
+
+`doNow` reads `len(m.mods)` live, and `AddModule` may be called while a phase is waiting for a
+delayed completion (never inside `Filter` itself: it takes the same lock).  In the model that is
+a third kind of command between completion events. -/
+
+inductive Cmd
+  | call (w : Nat) (b : Bool)   -- module w invokes next(b)
+  | add                         -- AddModule(..) by anybody
+  deriving DecidableEq, Repr
+
+/-- `AddModule` as seen by a live `Filter` closure: `len(m.mods)` is one larger -/
+def ML.grow (s : ML) : ML := { s with n := s.n + 1 }
+
+def grunFrom (s : ML) (tr : List Ev) : List Cmd → ML × List Ev
+  | [] => (s, tr)
+  | .call w b :: cs => grunFrom (s.next b).1 (tr ++ .call w b :: (s.next b).2) cs
+  | .add :: cs => grunFrom s.grow tr cs
+
+/-- closure state and log of one phase with interleaved `AddModule` calls -/
+def grun (n : Nat) (fwd : Bool) (cmds : List Cmd) : ML × List Ev :=
+  grunFrom (filter n fwd).1 (filter n fwd).2 cmds
+
+def cmdCalls : List Cmd → List (Nat × Bool)
+  | [] => []
+  | .call w b :: r => (w, b) :: cmdCalls r
+  | .add :: r => cmdCalls r
+
 /-- visiting order: registration order for start, its reverse for stop -/
 def ord (n : Nat) (fwd : Bool) : List Nat :=
   if fwd then List.range n else (List.range n).reverse
@@ -160,6 +188,10 @@ inductive AOp
   | stop                                -- App.Stop(finish)
   | call (start : Bool) (w : Nat) (b : Bool)   -- a module invokes the phase's `next`
   deriving DecidableEq, Repr
+
+/-- `App.AddModule` later on: the list is one longer for every live closure -/
+def App.addModule (a : App) : App :=
+  { a with n := a.n + 1, startML := a.startML.map ML.grow, stopML := a.stopML.map ML.grow }
 
 /-- App after `Prepare()` and `n` × `AddModule` -/
 def App.init (n : Nat) : App := ⟨.prepared, n, none, none⟩
